@@ -413,6 +413,28 @@ def _special_case(args):
             shutil.move(str(ref), str(d / "b" / "ref.rtdc"))
             out.extend(check_referrer(d / "b" / "ref.rtdc", ev, cmap, case,
                                       {"which": which}))
+        elif which in ("compressed-referrer", "repacked-referrer"):
+            # the referrer is copied by dclab-compress / dclab-repack: the
+            # copy still gives the origin's events (the map travels along)
+            from dclab import cli
+            task = which.split("-")[0][:-2].replace("compress", "compress")
+            task = "compress" if which.startswith("compress") else "repack"
+            cp = d / "a" / "copy.rtdc"
+            getattr(cli, task)(path_in=ref, path_out=cp)
+            out.extend(check_referrer(cp, ev, cmap, case,
+                                      {"which": which, "map": "subset"}))
+            cp.unlink()
+            # ... also for a map with a repeated and an out-of-order event
+            dup = np.array([2, 0, 0, 4, 1], dtype=np.uint64)
+            ref2 = d / "a" / "ref2.rtdc"
+            with RTDCWriter(ref2, mode="reset") as hw:
+                hw.store_metadata(gen.complete_meta(len(dup)))
+                hw.store_feature("index_online", np.arange(len(dup)) + 1)
+                hw.store_basin("b", "file", "hdf5", [str(origin)],
+                               basin_map=dup)
+            getattr(cli, task)(path_in=ref2, path_out=cp)
+            out.extend(check_referrer(cp, ev, dup.astype(int), case,
+                                      {"which": which, "map": "repeats"}))
         elif which == "several-internal-basins":
             # one file, three internal definitions sharing the group of
             # stored rows: different maps, different row counts, and one
@@ -734,6 +756,7 @@ def run(ctx):
     res3 = par.pmap(_special_case, [(w, ctx.seed, scratch) for w in (
         "moved-together", "origin-removed", "stored-wins",
         "mapped-chunk-cross", "similar-maps", "several-internal-basins",
+        "compressed-referrer", "repacked-referrer",
         "foreign-unidentified-basin")])
     viols = []
     nfiles = 0
